@@ -11,6 +11,7 @@ From CG Require Import Spec.Choice.
 From CGgen Require Import Consts.
 From CG Require Import Model.Lexer.
 From CG Require Import Model.Parser.
+From CG Require Import Spec.Printer.
 (* add new Require lines above this line *)
 Require Import ExtrOcamlBasic ExtrOcamlString.
 Extraction Language OCaml.
@@ -28,5 +29,10 @@ Separate Extraction
   Parser.parse
   Parser.parse_with
   Parser.repaired
+  Parser.pinned
+  Printer.text
+  Printer.located_with
+  Printer.wf_stmt
+  Printer.erase_grammar
   (* add new roots above this line *)
   Prelude.pow2.
